@@ -273,7 +273,7 @@ CHECKS['C09'] = dict(
     technique='machine-checked invariant proofs (Coq) over hand-written models + differential correspondence on histories + real-process exploration',
 )
 CHECKS['C17'] = dict(
-    text=('Proof over PoolLife/Model.v [restart_w] (PersistentWorker.restart over the control model): for every kind, every state of the old '
+    text=('Gen/Restart.v is regenerated from Worker.__init__ and the two _get_restart_args: C17_restart_arguments_rebuild_the_same_configuration proves, for every choice of constructor arguments (falsy ones included) and for the remote kind\'s extra options, that the next incarnation remembers exactly the same configuration (refutation kept for forwarding truthy options only). Proof over PoolLife/Model.v [restart_w] (PersistentWorker.restart over the control model): for every kind, every state of the old '
           'incarnation reachable by any history of is_alive / wait / terminate / close on a child of any class, and every timeout, restart either '
           'returns - then the old child is gone and the new incarnation is a fresh live worker of the same kind under the new id - or raises and the '
           'old child is still the live registered one: never abandoned and replaced; a process worker can always be stopped, so its restart never '
